@@ -432,6 +432,9 @@ func (g *FuncGen) typeFacts(st *State, t string, ty types.Type) {
 		}
 	case strings.HasPrefix(s, "(Sq "):
 		g.fact(fmt.Sprintf("(and (<= 0 (slen %s)) (<= (slen %s) 2147483647))", t, t))
+	case s == "Bytes":
+		// A-MEM: a string or []byte value of the program is shorter than 2^47 bytes
+		g.fact(fmt.Sprintf("(<= (blen %s) 140737488355328)", t))
 	}
 }
 
